@@ -165,6 +165,69 @@ class _AllAnyOfDisplay(ast.NodeTransformer):
             node = _Drop().visit(node)
         return self.generic_visit(node)
 
+    def _registry_items(self, node):
+        # for NAME, D in <x>.registered_rules.items():  the registry of
+        # defaults is keyed by the default's own name (every store is
+        # `registered_rules[d.name] = <copy of d>`: C12.COPY-IN checks it),
+        # so NAME is D.name
+        it = node.iter
+        if not (isinstance(it, ast.Call) and isinstance(
+                it.func, ast.Attribute) and it.func.attr == 'items'
+                and not it.args and isinstance(
+                    it.func.value, ast.Attribute)
+                and it.func.value.attr == 'registered_rules'
+                and isinstance(node.target, ast.Tuple)
+                and len(node.target.elts) == 2 and all(
+                    isinstance(e, ast.Name) for e in node.target.elts)):
+            return node
+        k, v = node.target.elts[0].id, node.target.elts[1].id
+        if any(isinstance(n, ast.Name) and n.id in (k, v) and isinstance(
+                n.ctx, (ast.Store, ast.Del))
+                for st in node.body + node.orelse for n in ast.walk(st)):
+            return node
+
+        class _K(ast.NodeTransformer):
+            def visit_Name(self, n):
+                if n.id == k and isinstance(n.ctx, ast.Load):
+                    return ast.copy_location(ast.Attribute(
+                        value=ast.Name(id=v, ctx=ast.Load()), attr='name',
+                        ctx=ast.Load()), n)
+                return n
+        node.body = [_K().visit(st) for st in node.body]
+        node.orelse = [_K().visit(st) for st in node.orelse]
+        node.target = ast.Name(id=v, ctx=ast.Store())
+        node.iter = ast.Call(func=ast.Attribute(
+            value=it.func.value, attr='values', ctx=ast.Load()), args=[],
+            keywords=[])
+        return node
+
+    def visit_For(self, node):
+        node = self._registry_items(node)
+        # the search loop  for x in L: if x == v: break / else: MISS
+        # is  if v not in L: MISS
+        self.generic_visit(node)
+        if isinstance(node.target, ast.Name) and len(node.body) == 1 and \
+                node.orelse and isinstance(node.body[0], ast.If) and \
+                not node.body[0].orelse and len(node.body[0].body) == 1 and \
+                isinstance(node.body[0].body[0], ast.Break):
+            t = node.body[0].test
+            x = node.target.id
+            if isinstance(t, ast.Compare) and len(t.ops) == 1 and \
+                    isinstance(t.ops[0], ast.Eq):
+                a, b = t.left, t.comparators[0]
+                if isinstance(b, ast.Name) and b.id == x:
+                    a, b = b, a
+                if isinstance(a, ast.Name) and a.id == x and not any(
+                        isinstance(n, ast.Name) and n.id == x
+                        for n in ast.walk(b)) and not any(
+                        isinstance(n, ast.Name) and n.id == x
+                        for st in node.orelse for n in ast.walk(st)):
+                    return ast.copy_location(ast.If(
+                        test=ast.Compare(left=b, ops=[ast.NotIn()],
+                                         comparators=[node.iter]),
+                        body=node.orelse, orelse=[]), node)
+        return node
+
     def visit_Compare(self, node):
         # next((v for v in X if P(v)), None) is not None  is  any(P(v) for v
         # in X)  -  when P calls a method on v (so a v that satisfies P is
